@@ -14,7 +14,9 @@
 #include <fcntl.h>
 #include <time.h>
 
-struct ForkResult { std::vector<std::string> text; std::vector<int> status; bool timed_out = false; double wall = 0; };
+struct ForkResult { std::vector<std::string> text; std::vector<int> status; bool timed_out = false; double wall = 0; std::string errlog;
+	// the library reports every expired time-out on stderr; a run with such a report is outside the synchrony assumption
+	bool timing_trouble() const { return timed_out || errlog.find("timeout") != std::string::npos || errlog.find("got EOF") != std::string::npos; } };
 
 typedef std::function<void(size_t, aiounicast *, CachinKursawePetzoldShoupRBC *, std::ostream &)> party_fn;
 
@@ -29,6 +31,8 @@ inline ForkResult fork_parties(size_t n, size_t t, uint64_t seed, time_t aio_tim
 		if (pipe(rp[i].data()) < 0) { perror("pipe"); exit(2); }
 	}
 	fflush(stdout); fflush(stderr);
+	// the children's stderr goes to an unlinked temporary file that the parent reads back
+	char tmpl[] = "/tmp/verif-i2-XXXXXX"; int efd = mkstemp(tmpl); if (efd >= 0) unlink(tmpl);
 	std::vector<pid_t> pid(n, -1);
 	struct timespec t0; clock_gettime(CLOCK_MONOTONIC, &t0);
 	for (size_t w = 0; w < n; w++) {
@@ -36,6 +40,7 @@ inline ForkResult fork_parties(size_t n, size_t t, uint64_t seed, time_t aio_tim
 		if (pid[w] < 0) { perror("fork"); exit(2); }
 		if (pid[w] == 0) {
 			int rc = 0;
+			if (efd >= 0) { fcntl(efd, F_SETFL, O_APPEND); dup2(efd, 2); }
 			try {
 				std::vector<int> uin, uout, bin, bout; std::vector<std::string> ukey, bkey;
 				for (size_t i = 0; i < n; i++) {
@@ -97,6 +102,7 @@ inline ForkResult fork_parties(size_t n, size_t t, uint64_t seed, time_t aio_tim
 		while ((k = read(rp[w][0], buf, sizeof buf)) > 0) R.text[w].append(buf, (size_t)k);
 		close(rp[w][0]);
 	}
+	if (efd >= 0) { lseek(efd, 0, SEEK_SET); char buf[4096]; ssize_t k; while ((k = read(efd, buf, sizeof buf)) > 0 && R.errlog.size() < (1u << 20)) R.errlog.append(buf, (size_t)k); close(efd); }
 	return R;
 }
 
